@@ -325,7 +325,27 @@ def check_state_writers(ctx: Ctx):
                 if hit is not None:
                     n += 1
                     ok = m.qual in SETTER_TABLE or is_pure_setter(m)
-                    ctx.decide("R15.6", m, node, f"{m.qual}:self.{hit.attr}", "configuration objects change their state only in __init__, in pure setters (self.x = <argument>) and in the tabled memo", ok, {"stmt": norm(node)[:80], "reason": SETTER_TABLE.get(m.qual) or ("pure setter" if ok else None)}, nontrivial=False)
+                    verdict = True if ok else False
+                    why = None
+                    if not ok:
+                        # definite only if what is remembered comes from the call's own arguments (then a
+                        # later call can see an earlier call's input); a cache of constants / file state /
+                        # fresh objects may be coherent - that is not decided here
+                        params = {p.name for p in m.params} - {m.self_name}
+                        tainted = set(params)
+                        for _ in range(3):
+                            for st in walk_no_nested(m.node):
+                                if isinstance(st, ast.Assign) and any(isinstance(x, ast.Name) and x.id in tainted for x in ast.walk(st.value)):
+                                    for t in st.targets:
+                                        for x in ast.walk(t):
+                                            if isinstance(x, ast.Name):
+                                                tainted.add(x.id)
+                        val = node.value if isinstance(node, (ast.Assign, ast.AugAssign, ast.AnnAssign)) else node
+                        uses = {x.id for x in ast.walk(val) if isinstance(x, ast.Name)} if val is not None else set()
+                        if not (uses & tainted):
+                            verdict = None
+                            why = "state written outside __init__ that does not come from the call's arguments (a cache?): whether later calls and other processes see it coherently is not decided"
+                    ctx.decide("R15.6", m, node, f"{m.qual}:self.{hit.attr}", "configuration objects change their state only in __init__, in pure setters (self.x = <argument>) and in the tabled memo", verdict, {"stmt": norm(node)[:80], "reason": SETTER_TABLE.get(m.qual) or ("pure setter" if ok else why)}, nontrivial=False)
     if n < 4:
         ctx.undecided("R15.6.floor", None, None, "floor:R15.6", f"{n} attribute writers outside __init__ found, confirmed floor is 4 (the tabled setters)")
 
